@@ -532,7 +532,7 @@ class Ctx:
                 return Tup([vals[0][1]])
             return StructV(last, vals)
         # unit: a unit struct or a function item
-        if last in src.structs:
+        if last in src.structs or (last[:1].isupper() and '<' not in last and not path.startswith('<')):
             return StructV(last, [])
         return FnItem(path)
 
